@@ -395,6 +395,37 @@ def classify(want, got, limit):
     return "other"
 
 
+def judge(ctx, trace, viols, direction):
+    """classify the VIOL lines of a validated real trace and report them (one per scenario, clause and class)"""
+    lines = None
+    reported = set()
+    for v in viols:
+        if lines is None:
+            lines = open(trace).read().splitlines()
+        scen = []
+        i = v["line"] - 1
+        while i >= 0:
+            rec = json.loads(lines[i])
+            scen.append(rec)
+            if rec["ev"] == "Setup":
+                break
+            i -= 1
+        scen.reverse()
+        cf = scen[0].get("cfg")
+        if v["kind"] == "state":
+            why = classify(v.get("want"), v.get("got"), cf.get("limit"))
+        else:
+            why = v["kind"]
+        # one report per (scenario, clause, class): later cycles of a cumulative stream repeat the first deviation
+        k = (v.get("sc"), v["kind"], why)
+        if k in reported:
+            continue
+        reported.add(k)
+        sig = dict(cfg_sig(cf), dir=direction, why=why, at=v["kind"], reuse=(scen[0].get("rep", 0) % 2 == 1))
+        ctx.violation(sig, replay={"scenario": scen, "want": v.get("want"), "got": v.get("got"), "fed": v.get("fed"),
+                                           "want2": v.get("want2"), "got2": v.get("got2")})
+
+
 # ---------------------------------------------------------------------------- driver
 def run(ctx):
     thorough = ctx.tier == "thorough"
@@ -476,30 +507,36 @@ def run(ctx):
     if skipped * 10 > n:
         ctx.note_inconclusive("random driver: %d of %d scenarios outside the modelled domain (generator filter and "
                               "InDomain disagree)" % (skipped, n))
-    for v in viols:
-        if lines is None:
-            lines = open(trace).read().splitlines()
-        scen = []
-        i = v["line"] - 1
-        while i >= 0:
-            rec = json.loads(lines[i])
-            scen.append(rec)
-            if rec["ev"] == "Setup":
-                break
-            i -= 1
-        scen.reverse()
-        cf = scen[0].get("cfg")
-        if v["kind"] == "state":
-            why = classify(v.get("want"), v.get("got"), cf.get("limit"))
-        else:
-            why = v["kind"]
-        # one report per (scenario, clause, class): later cycles of a cumulative stream repeat the first deviation
-        k = (v.get("sc"), v["kind"], why)
-        if k in reported:
-            continue
-        reported.add(k)
-        sig = dict(cfg_sig(cf), dir="random", why=why, at=v["kind"], reuse=(scen[0].get("rep", 0) % 2 == 1))
-        ctx.violation(sig, replay={"scenario": scen, "want": v.get("want"), "got": v.get("got"), "fed": v.get("fed")})
+    judge(ctx, trace, viols, "random")
+
+    # ---- concurrency: the limiter under concurrent first-seen sets, overlapping collections of one reader
+    if not os.environ.get("C12_SKIP_MODEL"):
+        for L, held in ((2, 0), (3, 1), (4, 1)):
+            dd = {"L": L, "HELD": held}
+            ctx.tlc(S, "CardLimitConc", "CardLimitConc.cfg", defines=dict(dd, RELOCK="FALSE"), name="conc-atomic-L%d" % L, timeout=600)
+        rk = ctx.tlc(S, "CardLimitConc", "CardLimitConc.cfg", defines={"L": 3, "HELD": 1, "RELOCK": "TRUE"}, name="conc-relock-L3",
+                     timeout=600, must_pass=False, count=False)
+        ctx.extra["model_finds_relock_deviation"] = rk["violated"] == "Inv"
+        if rk["violated"] != "Inv":
+            ctx.note_inconclusive("CardLimitConc: the NoAtomic configuration did not violate Inv")
+    ctrace = os.path.join(ctx.work, "conc.ndjson")
+    cresf = os.path.join(ctx.work, "conc.json")
+    ctx.run([binp, "conc", "-storms", str(1500 if thorough else 200), "-out", ctrace, "-res", cresf], timeout=2400)
+    cres = json.load(open(cresf))
+    add_counters(cres)
+    for m in cres["mismatches"]:
+        ctx.violation(dict(m.get("case") or {}, dir="conc", why="panic"), replay=m)
+    cviols, caccepted = ctx.validate_trace(S, "MC_Trace_Cardinality", "Trace_Cardinality.cfg", ctrace, timeout=3000, name="trace-conc")
+    ctx.traces_validated += cres["executed"]
+    ctx.evaluations += caccepted
+    ctx.extra["concurrent_scenarios"] = cres["executed"]
+    judge(ctx, ctrace, cviols, "conc")
+    for need in ("conc_gated_twins", "conc_storm_rounds", "conc_overlapped_collection_pairs", "conc_gate_parked", "conc_metrics_at_limit"):
+        if not counters.get(need):
+            ctx.note_inconclusive("vacuity: counter %s is zero" % need)
+    if counters.get("conc_gate_not_reached"):
+        ctx.note_inconclusive("concurrency gates not reached in %d scenarios" % counters["conc_gate_not_reached"])
+
     for need in ("collections_with_overflow_point", "metrics_at_limit", "scenarios_with_filter", "edges_with_overflow_point",
                  "edges_with_views", "scenarios_wildcard_name_fits_other_criterion_rejects",
                  "scenarios_exact_name_fits_other_criterion_rejects", "scenarios_views_with_identical_streams",
